@@ -957,7 +957,7 @@ pub fn c17_shapes(first_id: usize) -> Vec<(String, Vec<(ItemPath, Module)>, usiz
                         (Visibility::Public, "V"),
                         TypeDefinition::new([
                             TypeStatement::vftable([Function::new((vis(!public), "first"), [Argument::MutSelf]), f.clone()]),
-                            TypeStatement::field((vis(public), "x"), Type::ident("u32")),
+                            TypeStatement::field((vis(public), "x"), Type::ident("u8").const_pointer()),
                         ]),
                     ),
                     ItemDefinition::new(
@@ -993,6 +993,11 @@ pub fn run_c17(ctx: &mut Ctx) {
         match o {
             BuildOutcome::Built(b) => {
                 ctx.count("accepted", 1);
+                if b.mods[0].0.to_string().ends_with("vn") {
+                    ctx.count("accepted_slot_name_shapes", 1);
+                } else if b.mods[0].0.to_string().ends_with("sh") {
+                    ctx.count("accepted_array_length_shapes", 1);
+                }
                 let mut bad = vec![];
                 let before = stats.get("nonempty_doc_sets_compared").copied().unwrap_or(0);
                 judge_c17(&b, &mut bad, &mut stats);
@@ -1020,6 +1025,9 @@ pub fn run_c17(ctx: &mut Ctx) {
     }
     if ctx.distinct_count() < ctx.tier.pick(150, 1500) {
         ctx.inconclusive(format!("only {} distinct non-trivial cases", ctx.distinct_count()));
+    }
+    if ctx.counter("accepted_slot_name_shapes") < 8 || ctx.counter("accepted_array_length_shapes") < 100 {
+        ctx.inconclusive("the edge shapes (slot names, array lengths around 32) were not accepted: nothing observed about them".to_string());
     }
 }
 
